@@ -182,9 +182,19 @@ Proof. exact tracked_wf_programs_valid. Qed.
 Theorem C15_tracked_wf_example : twf circ_tys circ_ins circ_specs false circ_prog = true.
 Proof. exact circuit_twf. Qed.
 
+(* the premise is needed: hugr-py's tracked builder accepts a program that untracks a qubit and never uses it again;
+   the document is rejected by the validity predicate; twf rejects the program *)
+Theorem C15_tracked_wf_needed :
+  twf circ_tys [0; 0]%N [OFixed [0; 0] [0; 0]]%N true drop_prog = false /\
+  (exists h tr, run_tracked 2 true drop_prog = (h, tr, None)) /\
+  exists g, Builder.run circ_tys (to_builder [0; 0]%N [OFixed [0; 0] [0; 0]]%N (explicit_prog 2 true drop_prog)) = Ok g /\
+            valid {| v_tys := circ_tys; v_main := g; v_subs := [] |} = false.
+Proof. exact twf_needed. Qed.
+
 Print Assumptions C15_plain_model_is_C01_builder.
 Print Assumptions C15_tracked_programs_valid.
 Print Assumptions C15_tracked_valid_example.
 Print Assumptions C15_tracked_wf_sound.
 Print Assumptions C15_wellformed_tracked_programs_valid.
 Print Assumptions C15_tracked_wf_example.
+Print Assumptions C15_tracked_wf_needed.
